@@ -79,6 +79,8 @@ struct Heartbeat {
 
 /// The child-side context handed to the part's work function.
 pub struct Ctx {
+    /// the base sentence the current cases derive from (for replay artefacts)
+    pub current_base: Option<String>,
     pub out: ShardOut,
     pub trace: bool,
     pub skip: u64,
@@ -159,6 +161,7 @@ pub fn child_main(
         .stack_size(args.stack)
         .spawn(move || {
             let mut ctx = Ctx {
+                current_base: None,
                 out: ShardOut::default(),
                 trace,
                 skip,
